@@ -581,6 +581,18 @@ func (x *Exec) lookupPhi(fr *Frame, name string, st *State) (Val, bool) {
 			}
 		}
 	}
+	// "iter": the number of completed iterations of the enclosing range loop
+	if name == "iter" {
+		for _, h := range heads {
+			for _, in := range h.Instrs {
+				if ph, ok := in.(*ssa.Phi); ok && ph.Comment == "rangeindex" {
+					if v, ok := fr.vals[ph]; ok {
+						return Val{K: KInt, T: plus(v.T, "1"), Typ: types.Typ[types.Int]}, true
+					}
+				}
+			}
+		}
+	}
 	// range key: DebugRef of name bound to (rangeindex + 1)
 	for _, b := range fr.fn.Blocks {
 		for _, in := range b.Instrs {
